@@ -28,6 +28,12 @@ package merklearray
 //   extra-true   extra position q not in S with its true element A[q] (proof is for S, not
 //                for S+q);  extra-foreign: extra position q in [0, 2^depth] with a foreign
 //                element
+//   depth+pos-compound (the one multi-field class): TreeDepth raised by e in {1,2,3} AND
+//                positions shifted by multiples of 2^depth (plain: p + k*2^depth; vc: index
+//                (i << e) | j), at least one position really shifted; every shift vector when
+//                (2^e)^|S| <= 256, else all uniform and all single-position shifts. Neither
+//                field alone reveals a verifier that forgets to check that the climb ends at
+//                position 0.
 // Oracle: every mutation must be rejected. Written from the statement: "A proof presented
 // for a different element, position, root or tree depth does not verify"; a changed Path
 // changes the recomputed root.
@@ -71,6 +77,8 @@ package merklearray
 //   M4 merkle.go verifyPath: hints left over after TreeDepth levels are ignored
 //        -> path-dup (last digest duplicated)
 //   M0 (the finding itself) merkle.go without the depth check -> treedepth+-1
+//   M5 (seeded C37-B) inspectRoot no longer checks pos == 0 (`len(pl) != 1` instead): MISSED
+//      by the single mutations, DETECTED by depth+pos-compound (both modes)
 
 import (
 	"bytes"
@@ -100,6 +108,9 @@ func (a c37array) Marshal(pos uint64) (crypto.Hashable, error) {
 }
 
 const c37foreign = c37elem("c37 foreign element")
+
+// c37compoundCap bounds the full product of shift vectors per (proof, e).
+const c37compoundCap = 256
 
 type c37tree struct {
 	vc        bool
@@ -377,6 +388,67 @@ func c37case(r *ve.Run, st *c37stats, tr *c37tree, mask uint) {
 					withElems(func(m map[uint64]crypto.Hashable) { delete(m, p); m[q] = tr.arr[p] }), proof)
 			}
 		}
+		// compound class: declared depth raised by e AND positions shifted by multiples of
+		// 2^depth (same low bits => the climb follows exactly the honest left/right pattern
+		// and ends on a node whose hash is the root but whose position is not 0).
+		//   plain: p -> p + k*2^depth, k in [0, 2^e);
+		//   vc:    index i -> (i << e) | j, j in [0, 2^e)  (bit reversal over depth+e turns that
+		//          into msb index rev_d(i) + rev_e(j)*2^depth, the analogue of the plain shift);
+		// at least one position actually shifted (k != 0 / j != 0): the all-zero vector is the
+		// pure depth change (plain) resp. the "all indices shifted left" alias (vc), both
+		// consequences of the known TreeDepth finding and kept under their existing keys.
+		// Every (2^e)^|S| - 1 shift vector when that is <= c37compoundCap, otherwise every
+		// uniform vector (same k for all) and every single-position shift.
+		for e := uint(1); e <= 3; e++ {
+			base := uint64(1) << e
+			pd := withPath(proof.Path)
+			pd.TreeDepth = proof.TreeDepth + uint8(e)
+			apply := func(ks []uint64) {
+				el := make(map[uint64]crypto.Hashable, len(S))
+				for idx, p := range S {
+					q := p + ks[idx]<<tr.depth
+					if tr.vc {
+						q = p<<e | ks[idx]
+					}
+					el[q] = tr.arr[p]
+				}
+				try("depth+pos-compound", fmt.Sprintf("depth+%d shifts %v", e, ks), mustReject, tr.root, el, pd)
+			}
+			total := uint64(1)
+			for range S {
+				total *= base
+				if total > c37compoundCap {
+					break
+				}
+			}
+			ks := make([]uint64, len(S))
+			if total <= c37compoundCap {
+				for v := uint64(1); v < total; v++ {
+					x := v
+					for idx := range ks {
+						ks[idx] = x % base
+						x /= base
+					}
+					apply(ks)
+				}
+				local["compound/full-product"]++
+			} else {
+				for k := uint64(1); k < base; k++ {
+					for idx := range ks {
+						ks[idx] = k
+					}
+					apply(ks)
+					for one := range ks {
+						for idx := range ks {
+							ks[idx] = 0
+						}
+						ks[one] = k
+						apply(ks)
+					}
+				}
+				local["compound/uniform+single"]++
+			}
+		}
 		// root
 		flipped := append(crypto.GenericDigest{}, tr.root...)
 		flipped[len(flipped)-1] ^= 0x80
@@ -466,7 +538,7 @@ func TestVerif_C37(t *testing.T) {
 	r.Assume("collision resistance of the hash functions is not challenged: mutations are structural")
 	r.Assume("plain (non vector-commitment) trees are not required to bind phantom positions >= n reached through an absent sibling (Build doc comment); exclusion (X3) in the harness header")
 	cov := ve.Coverage{Exhaustive: done == int64(len(items)),
-		Rule: fmt.Sprintf("arrays of size 0..%d x {plain, vector commitment} x %d hash factories x every subset of positions (%d subset cases): Prove + Verify (+ reordered positions, + msgpack round trip), then every single mutation: each path digest flipped/dropped/duplicated, TreeDepth +-1, each element replaced by every other array element and a foreign one, each position moved to every other position in [0, 2^depth], root flipped/emptied/other-mode root, extra position (true and foreign element)", maxN, len(hashes), len(items))}
+		Rule: fmt.Sprintf("arrays of size 0..%d x {plain, vector commitment} x %d hash factories x every subset of positions (%d subset cases): Prove + Verify (+ reordered positions, + msgpack round trip), then every single mutation: each path digest flipped/dropped/duplicated, TreeDepth +-1, each element replaced by every other array element and a foreign one, each position moved to every other position in [0, 2^depth], root flipped/emptied/other-mode root, extra position (true and foreign element); plus the compound class TreeDepth+e (e=1..3) with positions shifted by multiples of 2^depth", maxN, len(hashes), len(items))}
 	if r.Finish(cov) > 0 {
 		t.Fatal("violations")
 	}
